@@ -42,6 +42,9 @@ let split_on c s = String.split_on_char c s
 
 let time_obs ((sec, ns), off) = Printf.sprintf "ok %s %s %s" (string_of_z sec) (string_of_z ns) (string_of_z off)
 
+let tf b = if b then "t" else "f"
+let both x y = if x = y then tf x else "MODEL-VARIANTS-DIFFER"
+
 let run fn args =
   match fn, args with
   | "parse", [h] ->
@@ -57,6 +60,27 @@ let run fn args =
       (match iso8601_Valid (nat_of_int 10) b fl with
        | None -> "outoffuel"
        | Some r -> (if r then "true" else "false")) ^ "\t" ^ (if iso_spec fl b then "true" else "false")
+  | "a.valid", [h] ->
+      let b = bytes_of_hex h in
+      both (ascii_Valid b) (ascii_ValidString b) ^ "\t" ^ tf (List.for_all is_ascii b)
+  | "a.print", [h] ->
+      let b = bytes_of_hex h in
+      both (ascii_ValidPrint b) (ascii_ValidPrintString b) ^ "\t" ^ tf (List.for_all is_print b)
+  | "a.fold", [x; y] ->
+      let a = bytes_of_hex x and b = bytes_of_hex y in
+      both (ascii_EqualFold a b) (ascii_EqualFoldString a b) ^ "\t" ^ tf (fold_eq a b)
+  | "a.prefix", [x; y] ->
+      let a = bytes_of_hex x and b = bytes_of_hex y in
+      both (ascii_HasPrefixFold a b) (ascii_HasPrefixFoldString a b) ^ "\t" ^ tf (has_prefix_fold a b)
+  | "a.suffix", [x; y] ->
+      let a = bytes_of_hex x and b = bytes_of_hex y in
+      both (ascii_HasSuffixFold a b) (ascii_HasSuffixFoldString a b) ^ "\t" ^ tf (has_suffix_fold a b)
+  | "a.byte", [v] ->
+      let n = int_of_string v in
+      let z = z_of_int n in
+      let bs = if n >= 0 && n < 256 then tf (ascii_ValidByte z) ^ tf (ascii_ValidPrintByte z) else "--" in
+      bs ^ tf (ascii_ValidRune z) ^ tf (ascii_ValidPrintRune z) ^ "\t" ^
+      (if n >= 0 && n < 256 then tf (is_ascii z) ^ tf (is_print z) else "--") ^ tf (is_ascii z) ^ tf (is_print z)
   | _ -> "unknown-fn"
 
 let () =
